@@ -11,7 +11,8 @@ use quanta::Instant;
 use crate::common::Snapshot;
 use crate::distribution::{Distribution, DistributionBuilder};
 use crate::formatting::{
-    key_to_parts, sanitize_metric_name, write_help_line, write_metric_line, write_type_line,
+    key_to_parts, metric_family_name, sanitize_metric_name, write_help_line, write_metric_line,
+    write_type_line,
 };
 use crate::registry::GenerationalAtomicStorage;
 
@@ -117,12 +118,14 @@ impl Inner {
         let descriptions = self.descriptions.read().unwrap_or_else(PoisonError::into_inner);
 
         for (name, mut by_labels) in counters.drain() {
-            let unit = descriptions.get(name.as_str()).and_then(|(desc, unit)| {
-                write_help_line(&mut output, name.as_str(), desc);
-                *unit
-            });
+            let description = descriptions.get(name.as_str());
+            let unit = description.and_then(|(_, unit)| *unit).filter(|_| self.enable_unit_suffix);
+            let family_name = metric_family_name(name.as_str(), unit);
+            if let Some((desc, _)) = description {
+                write_help_line(&mut output, family_name.as_str(), desc);
+            }
 
-            write_type_line(&mut output, name.as_str(), "counter");
+            write_type_line(&mut output, family_name.as_str(), "counter");
             for (labels, value) in by_labels.drain() {
                 write_metric_line::<&str, u64>(
                     &mut output,
@@ -131,19 +134,21 @@ impl Inner {
                     &labels,
                     None,
                     value,
-                    unit.filter(|_| self.enable_unit_suffix),
+                    unit,
                 );
             }
             output.push('\n');
         }
 
         for (name, mut by_labels) in gauges.drain() {
-            let unit = descriptions.get(name.as_str()).and_then(|(desc, unit)| {
-                write_help_line(&mut output, name.as_str(), desc);
-                *unit
-            });
+            let description = descriptions.get(name.as_str());
+            let unit = description.and_then(|(_, unit)| *unit).filter(|_| self.enable_unit_suffix);
+            let family_name = metric_family_name(name.as_str(), unit);
+            if let Some((desc, _)) = description {
+                write_help_line(&mut output, family_name.as_str(), desc);
+            }
 
-            write_type_line(&mut output, name.as_str(), "gauge");
+            write_type_line(&mut output, family_name.as_str(), "gauge");
             for (labels, value) in by_labels.drain() {
                 write_metric_line::<&str, f64>(
                     &mut output,
@@ -152,20 +157,22 @@ impl Inner {
                     &labels,
                     None,
                     value,
-                    unit.filter(|_| self.enable_unit_suffix),
+                    unit,
                 );
             }
             output.push('\n');
         }
 
         for (name, mut by_labels) in distributions.drain() {
-            let unit = descriptions.get(name.as_str()).and_then(|(desc, unit)| {
-                write_help_line(&mut output, name.as_str(), desc);
-                *unit
-            });
+            let description = descriptions.get(name.as_str());
+            let unit = description.and_then(|(_, unit)| *unit).filter(|_| self.enable_unit_suffix);
+            let family_name = metric_family_name(name.as_str(), unit);
+            if let Some((desc, _)) = description {
+                write_help_line(&mut output, family_name.as_str(), desc);
+            }
 
             let distribution_type = self.distribution_builder.get_distribution_type(name.as_str());
-            write_type_line(&mut output, name.as_str(), distribution_type);
+            write_type_line(&mut output, family_name.as_str(), distribution_type);
             for (labels, distribution) in by_labels.drain(..) {
                 let (sum, count) = match distribution {
                     Distribution::Summary(summary, quantiles, sum) => {
@@ -179,7 +186,7 @@ impl Inner {
                                 &labels,
                                 Some(("quantile", quantile.value())),
                                 value,
-                                unit.filter(|_| self.enable_unit_suffix),
+                                unit,
                             );
                         }
 
@@ -194,7 +201,7 @@ impl Inner {
                                 &labels,
                                 Some(("le", le)),
                                 count,
-                                unit.filter(|_| self.enable_unit_suffix),
+                                unit,
                             );
                         }
                         write_metric_line(
@@ -204,7 +211,7 @@ impl Inner {
                             &labels,
                             Some(("le", "+Inf")),
                             histogram.count(),
-                            unit.filter(|_| self.enable_unit_suffix),
+                            unit,
                         );
 
                         (histogram.sum(), histogram.count())
@@ -218,7 +225,7 @@ impl Inner {
                     &labels,
                     None,
                     sum,
-                    unit.filter(|_| self.enable_unit_suffix),
+                    unit,
                 );
                 write_metric_line::<&str, u64>(
                     &mut output,
@@ -227,7 +234,7 @@ impl Inner {
                     &labels,
                     None,
                     count,
-                    unit.filter(|_| self.enable_unit_suffix),
+                    unit,
                 );
             }
 
